@@ -261,9 +261,12 @@ class ForceMatrix:
         _verif_path = solver_method if solver_method in ("lsq_linear", "lsq", "fix_stress") else "inv"
         try:
             if solver_method == "lsq_linear":
-                solutions = scop.lsq_linear(mprime,
-                                            b,
-                                            bounds=(0.0, np.inf))
+                # scipy moves the starting point off the zero bound with np.nextafter, which underflows
+                # by design; the package-wide np.seterr(all='raise') must not turn that into an error
+                with np.errstate(under="ignore"):
+                    solutions = scop.lsq_linear(mprime,
+                                                b,
+                                                bounds=(0.0, np.inf))
                 xres = solutions["x"]
             elif solver_method == "lsq":
                 try:
